@@ -42,22 +42,15 @@ Definition is_hybrid (r : arev) : bool :=
 Definition earlier_puts (older : list arev) (n : N) : list aput :=
   flat_map (fun r => filter (fun p => (fst (ap_id p) =? n)%N) (a_puts r)) older.
 
-(* The open findings, decided on the input history (mirrors history_class in props/c07.py):
+(* The open finding, decided on the input history (mirrors history_class in props/c07.py):
    freed-comes-back          a revision frees a number an earlier revision defines
-   hybrid-update             a hybrid revision stores an already defined number in an object stream
-   objstm-stale-generation   a number once stored in an object stream is redefined plainly with generation <> 0 *)
+   (hybrid-update and objstm-stale-generation were classes of this predicate until the reader was repaired:
+    merge_xref_stream / one generation per number, see notes/C07.md) *)
 Fixpoint known_class_from (older : list arev) (rest : list arev) : bool :=
   match rest with
   | [] => false
   | r :: rest' =>
     existsb (fun id => match earlier_puts older (fst id) with [] => false | _ => true end) (a_dels r)
-    || existsb (fun p =>
-                  match ap_objstm p with
-                  | Some _ => is_hybrid r && match earlier_puts older (fst (ap_id p)) with [] => false | _ => true end
-                  | None => negb (snd (ap_id p) =? 0)%N
-                            && existsb (fun q => match ap_objstm q with Some _ => true | None => false end)
-                                       (earlier_puts older (fst (ap_id p)))
-                  end) (a_puts r)
     || known_class_from (older ++ [r]) rest'
   end.
 Definition KnownClass (h : list arev) : bool := known_class_from [] h.
